@@ -32,11 +32,23 @@ PROPS["C08"] = {
             "illegal lengths interleaved which must be rejected without disturbing the state), inputs gauss | tone | sweep | impulse | step | integer ramp; "
             "resample: all (p,q) <= 8 (quick) / <= 16 (thorough) incl. non-reduced and p = q + audio ratios + 48000/44100, lengths 1, multiples and non-multiples of q, "
             "empty input for every ratio, one 4.87M-sample input at 441/160 (thorough); alignment on 3 signals per reduced ratio; "
-            "sum(h) = 0 (excluded point) run through CORR only; distinct = distinct protocol lines / oracle cases (random h and x differ per case); non-trivial = all",
+            "sum(h) = 0 (excluded point) run through CORR only; distinct = distinct protocol lines / oracle cases (random h and x differ per case); non-trivial = all. "
+            "Round-2 classes: h kinds single-tap (state of length 0) and sparse (whole branches zero); scale classes of h (x1e-300, 1e-17, 1e-8, 1e8, 1e100, -1, 2^-600, 2^40, "
+            "denormal taps 1e-320, 3) and of x (the first eight), inputs with runs of exact zeros longer than any state and with negative zeros; "
+            "copies of every converter (copy of a prototype, copy mid-stream, vector(n, used object), copy-assignment: bit-identical continuation, independence, chain); "
+            "LARGE FRAMES IN HISTORIES, every output of every call against the chain: small-big-small, big-bigger, rejected big frame then big, 3..200 medium frames then big, "
+            "geometric staircases up and down, big = just above 2^16 and 2^17 (quick) / 2^12..2^18, k*49152, k*65536, 10^6 (thorough), for 2 (quick, rotating with the seed) / all "
+            "(thorough) of 6 interpolators, 6 decimators, 8 rate converters, 8 resampler ratios (all three modes, non-reduced, bypass); a third of them also as digest CORR lines "
+            "(tag big: the driver regenerates the integer input, compares length, first/last 8 samples and the sum per call); "
+            "EXTREME RATIOS 2/40001, 32769/2, 3/65536, 32768/32769, 7/32769, 1/65537, 1/40000, 40000/1, 65537/1, 48000/44101, 4/80002 (+ 48000/44101 direct, 5/65535, 32767/32768, "
+            "40000/39999, 1/100003, 100003/1, 96000/3 thorough) with 2..16-tap, 2R+k-tap and default coefficient vectors, frames M, 0, 2M, M+1, M-1, M; "
+            "resample() on LONG inputs: len = k*floor(B/q')*q', ceil(B/q')*q', B+1, floor-1 for B in 32Ki, 48Ki, 64Ki, 128Ki (quick) / 15 block sizes 4Ki..256Ki, 10^4, 5*10^4, 10^5 (thorough), "
+            "q' in 1..8 (16) + 147, 160, 441, 2^16+-1, 2^17+-1, 2^18, 10^6, ALL outputs (the last delay() ones included) against the chain, some as digest CORR lines (tag bigres); "
+            "resample() at the extreme ratios; operands that are temporaries / expression results (bit-identical); a rolling per-case watchdog (120 s quick) reports hangs with the case in flight",
     "technique": "Lean 4 proof over a hand-written executable model (generic scalar, Float for the driver, reals for the theorems) + bit-exact multi-call "
                  "correspondence with the real classes + long-double textbook-chain oracle (literal zero-stuff/convolve for small sizes)",
     "level_note": "rounding is not modelled (theorems over the reals; sum(h) != 0 is an explicit hypothesis, the excluded point is a CORR input class); int is modelled "
-                  "as Nat (resample_no_overflow bounds every intermediate by the array lengths; uint16_t xidxs_ needs M <= 65536: phasePair_lt); the default coefficient "
+                  "as Nat (resample_no_overflow bounds every intermediate by the array lengths; the branch offsets xidxs_ are int since the repair of the uint16_t wrap, phasePair_lt bounds them by M); the default coefficient "
                   "design (_multirate_fir = fir1 + kaiser) is an INPUT of the model (belongs to C11), the harness checks bit-exactly that the default constructors / "
                   "resample(x,p,q) use exactly the vector passed to the model; alignment (T08.9) and approximation quality are measured, not proved; the multi-call "
                   "statement is per call for an arbitrary history (the induction over calls is C06's framing theorem)",
